@@ -181,6 +181,8 @@ class Ctx:
         self.broken = []                # correspondence breaks without a property failure: dict(kind, detail)
         self.notes = []
         self._model = None
+        self._pending = []
+        self.driver_ok = True
         self.t0 = time.time()
         kf = json.load(open(os.path.join(VERIF, 'known_findings.json')))
         self.known = {f['key']: f for f in kf.get('findings', []) if f['property'] == prop}
@@ -209,6 +211,23 @@ class Ctx:
             self.nontrivial.add(h)
         if sample is not None and len(self.samples) < 8 and (self.evaluations % 97 == 1 or len(self.samples) < 3):
             self.samples.append(sample)
+
+    def expect_model(self, line, expected, detail):
+        """Deferred correspondence check: the driver's answer to `line` must equal `expected` (the library's canonical output)."""
+        if not self.driver_ok:
+            return
+        self._pending.append((line, expected, detail))
+        if len(self._pending) >= 20000:
+            self.flush_model()
+
+    def flush_model(self):
+        if not self._pending:
+            return
+        pend, self._pending = self._pending, []
+        outs = self.model.run([p[0] for p in pend])
+        for (line, expected, detail), got in zip(pend, outs):
+            if got != expected:
+                self.corr_broken(f'model != library: model={got[:300]} library={expected[:300]} request={line[:300]} ({detail})')
 
     def corr_broken(self, detail):
         """Model and code disagree although the code satisfies the property on this input."""
@@ -267,6 +286,7 @@ def _execute(ctx, mod, prop, replay):
                         mod.replay(ctx, json.load(open(os.path.join(cdir, f))))
                         ctx.count('corpus_cases')
             mod.run(ctx)
+        ctx.flush_model()
     except MachineryError:
         raise
     except Exception:
